@@ -57,6 +57,7 @@ def den(h, n):
     return h['b_den'][n]
 
 
+ISSTR = z3.Function('is_a_string', H, z3.BoolSort())             # isinstance(var, str) for a variable name (uninterpreted)
 SAMEORD = z3.Function('same_ordering', I, I, z3.BoolSort())      # Ordering.__eq__ (uninterpreted)
 OP = z3.Function('boolean_operator', I, z3.BoolSort(), z3.BoolSort(), z3.BoolSort())   # a binary operator passed as a value
 POS = z3.Function('position_in_ordering', I, H, I)      # ListOrdering: in_order(x, y) is position(x) < position(y)
@@ -307,6 +308,8 @@ class BddExt(Extension):
         return None
 
     def isinstance(self, E, ex, a, cls, path, node):
+        if self.on(ex) and a.ty == 'H' and cls.ty == 'func' and cls.x[0] == 'builtin' and cls.x[1] == 'str':
+            return SV('bool', ISSTR(a.t))
         if self.on(ex) and cls.ty == 'bclass' and cls.x == 'Ordering' and a.ty == 'ordering':
             return SV('bool', z3.BoolVal(True))
         if self.on(ex) and cls.ty == 'func' and cls.x[0] == 'ctor' and cls.x[1] == 'OBDD' and a.ty == 'obdd':
@@ -344,6 +347,8 @@ class BddExt(Extension):
         if base.ty == 'bnode' and attr == '__invert__':
             # dynamic dispatch: both bodies (terminal / non-terminal) are verified against the same clauses
             return E.call_contract(ex, 'BDDNonTerminalNode.__invert__', [base] + args, kwargs, path, node)
+        if base.ty == 'bnode' and attr == 'restrict':
+            return E.call_contract(ex, 'BDDNode.restrict', [base] + args, kwargs, path, node)
         if base.ty == 'bnode' and attr == 'respect_ordering':
             return SV('bool', hp.fresh('respects', z3.BoolSort()))      # not modelled: either answer
         if base.ty == 'obdd' and attr == 'apply':
@@ -765,6 +770,23 @@ def install(E):
             requires=restrict_req, ensures=restrict_ens, frame=cache_frame(rcache_of), may_write=cache_may_write(rcache_of),
             touches=set(DT), hints=dict(common), owner='C17'), FILE)
 
+    # -- BDDNode.restrict: argument normalisation (1/0 for True/False) and type test, then cache_restrict ------------
+    def nrestrict_ens(c):
+        h0, h1, r = c.h0, c.h1, c.res.t
+        return node_state(h1) + nodes_kept(h0, h1) + [
+            ('result_is_a_node', node_ok(h1, r)),
+            ('denotes_the_cofactor', z3.ForAll([SG], den(h1, r)[SG] == den(h1, c.self.t)[z3.Store(SG, c.var.t, c.value.t)], patterns=[den(h1, r)[SG]])),
+            ('ordered_result', ord_ok_all(h1, c.self.t, r))]
+
+    E.register(Contract(
+        'BDDNode.restrict', 'bdd', [('self', 'bnode'), ('var', 'H'), ('value', 'bool')], ret='bnode',
+        requires=lambda c: node_state(c.h0) + [('self_is_a_node', node_ok(c.h0, c.self.t))], ensures=nrestrict_ens,
+        raises={'TypeError': lambda c: z3.Not(ISSTR(c.var.t))},
+        frame=lambda c: __import__('vf.pyvc.contracts_graph', fromlist=['frame']).frame(
+            c.h0, c.h1, c.h0.alloc, {'b_fl': lambda r: z3.BoolVal(True), 'b_fh': lambda r: z3.BoolVal(True)}),
+        touches=set(DT), hints=dict(common, dict_kind_default='refdict'), owner='C17',
+        note='value of type bool (the integer forms 1/0 are normalised by the body; Python: True == 1)'), FILE)
+
     # -- apply / compute / the three decompositions ----------------------------------------------------------------
     def a_cache_ok(h, d, op, o=None):
         a, b = R('a'), R('b')
@@ -924,5 +946,19 @@ def install(E):
         requires=lambda c: node_state(c.h0) + [('self_is_an_OBDD', obdd_ok(c.h0, c.self.t))],
         ensures=oinv_ens, frame=wrapper_frame, touches=set(OT),
         hints=dict(common, may_raise=('ValueError',), dict_kind_default='refdict'), raise_unchanged=False, owner='C17'), OFILE)
+
+    def orestrict_ens(c):
+        h0, h1, r = c.h0, c.h1, c.res.t
+        return node_state(h1) + nodes_kept(h0, h1) + [
+            ('result_is_a_new_OBDD', z3.And(r >= h0.alloc, obdd_ok(h1, r), h1['o_ord'][r] == h0['o_ord'][c.self.t])),
+            ('denotes_the_cofactor', z3.ForAll([SG], den(h1, root(h1, r))[SG] == den(h1, root(h0, c.self.t))[z3.Store(SG, c.var.t, c.value.t)],
+                                               patterns=[den(h1, root(h1, r))[SG]]))]
+
+    E.register(Contract(
+        'OBDD.restrict', 'obdd', [('self', 'obdd'), ('var', 'H'), ('value', 'bool')], ret='obdd',
+        requires=lambda c: node_state(c.h0) + [('self_is_an_OBDD', obdd_ok(c.h0, c.self.t))],
+        ensures=orestrict_ens, frame=wrapper_frame, touches=set(OT),
+        raises={'TypeError': lambda c: z3.Not(ISSTR(c.var.t))},
+        hints=dict(common, may_raise=('ValueError',)), raise_unchanged=False, owner='C17'), OFILE)
 
     return ['find_isomorph', 'BDDNode.__reset__', 'BDDNonTerminalNode.__reset__', 'BDDNonTerminalNode.__new__']
